@@ -21,6 +21,7 @@ import (
 	"strings"
 	"sync"
 	"time"
+	"unicode/utf8"
 
 	"github.com/prometheus/client_golang/prometheus"
 	"github.com/robustirc/robustirc/internal/config"
@@ -679,13 +680,27 @@ func (i *IRCServer) send(reply *Replyctx, msg *irc.Message) *robust.Message {
 
 	reply.replyid++
 
+	data := msg.Bytes()
+	// msg.Bytes() truncates the message to 510 bytes, possibly within a
+	// multi-byte character. Remove the left-over bytes of such a character,
+	// otherwise each of them becomes a (3 byte) replacement character when
+	// the message is sent to clients as JSON, exceeding the 510 bytes.
+	if len(data) >= 510 {
+		for len(data) > 0 {
+			if r, size := utf8.DecodeLastRune(data); r != utf8.RuneError || size != 1 {
+				break
+			}
+			data = data[:len(data)-1]
+		}
+	}
+
 	robustmsg := &robust.Message{
 		// The IDs must be the same across servers.
 		Id: robust.Id{
 			Id:    reply.msgid,
 			Reply: reply.replyid,
 		},
-		Data:           string(msg.Bytes()),
+		Data:           string(data),
 		InterestingFor: make(map[uint64]bool),
 	}
 
